@@ -253,12 +253,17 @@ Maximal == \/ Len(calls) = 2
 HRef(r) == (IF r.t = "lib" THEN 1 ELSE IF r.t = "idep" THEN 2 ELSE IF r.t = "ext" THEN 3 ELSE 4) * 7 + r.n
 RECURSIVE HRefs(_)
 HRefs(s) == IF s = <<>> THEN 1 ELSE (HRef(Head(s)) + 31 * HRefs(Tail(s))) % 100003
-HCall(c) == (c.main * 13 + HRefs(c.libs) * 17 + HRefs(c.libsp) * 19 + HRefs(c.reqs) * 23 + HRefs(c.reqsp) * 29) % 100003
+HScalars(c) == Len(c.subdirs) + 3 * Len(c.xcf) + 7 * Len(c.vars) + (IF c.vars # <<>> /\ c.vars[1].ref # "" THEN 37 ELSE 0)
+               + (IF c.vars # <<>> /\ c.vars[1].v = "bar" THEN 5 ELSE 0) + (IF c.subdirs[1] = "." THEN 0 ELSE 41)
+               + (IF c.fb # "" THEN 11 ELSE 0) + (IF c.ver # "" THEN 13 ELSE 0) + (IF c.desc \in {"", "dA", "dB"} THEN 0 ELSE 17)
+               + (IF c.idir # "" THEN 19 ELSE 0) + (IF c.name \in {"", "nA", "nB"} THEN 0 ELSE 23)
+HCall(c) == (c.main * 13 + HRefs(c.libs) * 17 + HRefs(c.libsp) * 19 + HRefs(c.reqs) * 23 + HRefs(c.reqsp) * 29 + HScalars(c)) % 100003
 HKind(k) == CASE k = "shared" -> 1 [] k = "lib" -> 2 [] k = "static" -> 3 [] k = "ustatic" -> 4 [] OTHER -> 5
 RECURSIVE HObjs(_)
 HObjs(s) == IF s = <<>> THEN 1
             ELSE (HKind(Head(s).k) + 5 * Len(Head(s).lw) + 11 * Len(Head(s).lwh) + 3 * Len(Head(s).deps)
-                  + (IF Head(s).lw # <<>> THEN Head(s).lw[1] ELSE 0) + 37 * HObjs(Tail(s))) % 100003
+                  + (IF Head(s).lw # <<>> THEN Head(s).lw[1] ELSE 0) + (IF Head(s).sub # "" THEN 2 ELSE 0)
+                  + (IF Head(s).idir # "" THEN 7 ELSE 0) + 37 * HObjs(Tail(s))) % 100003
 Hash == (HObjs(P.objs) * 41 + HCall(calls[1]) * 43 + (IF Len(calls) = 2 THEN HCall(calls[2]) * 47 ELSE 0)) % 100003
 Export ==
     (Maximal /\ (SAMPLE = 1 \/ Hash % SAMPLE = SEED % SAMPLE)) =>
